@@ -2,7 +2,7 @@ SPECIFICATION Spec
 CONSTANTS
   Chunks = 2
   MaxVer = 4
-  Deviation = "ignore_write_error"
-INVARIANTS Inv_FileIsCompleteSnapshot
+  Deviation = "no_trunc"
+INVARIANTS Inv_LoadsWithoutError
 PROPERTIES Act_ReloadEqualsLastSave
 CHECK_DEADLOCK FALSE
